@@ -65,6 +65,52 @@ function CO(f, k)
     n = n + 1
   end
 end
+
+-- Go boundaries: the function f runs as a callback of a Go function.  The
+-- VIA_LOAD / VIA_HOOK / VIA_GC boundaries handle an error of f themselves
+-- (load returns nil,msg; the error of a hook or of a finaliser is dropped);
+-- through the others the error goes on to the caller.
+local function canon(e)
+  if type(e) == "string" then
+    e = e:match("^error: (.*)$") or e      -- load reports err.Error()
+    local n = tonumber(e)
+    if n then return n end
+  end
+  return e
+end
+function VIA_LOAD(f)
+  local fn, e = load(f)
+  if fn then return true end
+  return false, canon(e)
+end
+function HOOKTARGET() end
+function VIA_HOOK(f)
+  local fired = false
+  debug.sethook(function() if not fired then fired = true; f() end end, "c")
+  HOOKTARGET()
+  debug.sethook()
+  return "?"
+end
+function VIA_GC(f)
+  local started = false
+  do
+    local o = setmetatable({}, {__gc = function() started = true; f() end})
+    o = nil
+  end
+  for i = 1, 200 do collectgarbage() if started then break end end
+  if not started then emit("gc-never-ran") end
+  return "?"
+end
+function VIA_SORT(f)
+  local done = false
+  table.sort({2, 1}, function(a, b) if not done then done = true; f() end return a < b end)
+end
+function VIA_GSUB(f) string.gsub("x", "x", function() f() end) end
+function VIA_TOSTRING(f) tostring(setmetatable({}, {__tostring = function() f() return "" end})) end
+function VIA_INDEX(f) local _ = setmetatable({}, {__index = function() f() end}).k end
+function VIA_CONCAT(f) local _ = setmetatable({}, {__concat = function() f() return "" end}) .. "" end
+-- the value loses its __close metamethod after it was declared
+function UNCL(x) getmetatable(x).__close = nil end
 `
 
 func dumpCode(c *ir.Code, consts []ir.Constant, out *[]string) {
